@@ -1,6 +1,6 @@
 """C13 — ECDSA signatures are valid, canonical (strict DER, low S), deterministic; the verifier is exact."""
-import hashlib, hmac
-from core import Case
+import hashlib, hmac, os
+from core import Case, load_known
 
 PROP = 'C13'
 COQ_FILES = ['Extract/C13.v', 'Properties/C13.v']
@@ -240,6 +240,17 @@ def spec_verify(dg, sig, pk):
     return '1' if ec_verify(bits2int(dg), ps[0], ps[1], Q) else '0'
 
 
+def spec_verify_z(dgv, sig, pk):
+    """the same for a digest given as (integer, is-empty)"""
+    ps = spec_parse(sig)
+    if ps is None or not (1 <= ps[0] < N and 1 <= ps[1] < N) or dgv[1]:
+        return 'ERR'
+    Q = sec_point(pk)
+    if Q is None:
+        return 'ERR'
+    return '1' if ec_verify(dgv[0], ps[0], ps[1], Q) else '0'
+
+
 def hx(b):
     return b.hex() if b else '-'
 
@@ -254,6 +265,110 @@ def b32(v):
 
 def ser_pub(Q, compressed=True):
     return (bytes([2 + (Q[1] & 1)]) + b32(Q[0])) if compressed else b'\x04' + b32(Q[0]) + b32(Q[1])
+
+
+# ---------------------------------------------------------------- argument forms
+# Every digest / signature / key argument of the entry points is documented "bytes, str (hexstring)".  THE MEANING OF A
+# BYTES ARGUMENT IS ITS BYTES; THE MEANING OF A STR ARGUMENT IS THE BYTES ITS BASE-16 TEXT DECODES TO (RFC 4648 section 8
+# alphabet in either case, two digits per byte, nothing else).  Bytes that happen to consist of ASCII hex digits are still
+# bytes.  Base-16 text with ASCII white space between the bytes has two defensible readings (refuse it; skip the blanks as
+# bytes.fromhex does): an answer is accepted when it is right under one of them.  Any other text has no meaning: the
+# verifier must not accept it, the signer and the parsers must refuse it.
+# A request names an argument by a form letter and a hex field: b = bytes object holding the field's bytes, h = the field
+# as lower-case hex text, U = as upper-case hex text, t = a str whose CHARACTERS are the field's bytes.
+WS = ' \t\n\r\x0b\x0c'
+HEXDIG = '0123456789abcdefABCDEF'
+REFUSE = 'REFUSE'
+
+
+def arg_text(form, field):
+    b = unhx(field)
+    return b.hex() if form == 'h' else b.hex().upper() if form == 'U' else b.decode('latin-1')
+
+
+def base16(t):
+    if len(t) % 2 or any(ch not in HEXDIG for ch in t):
+        return None
+    return bytes(int(t[i:i + 2], 16) for i in range(0, len(t), 2))
+
+
+def base16_ws(t):
+    out, i = [], 0
+    while i < len(t):
+        if t[i] in WS:
+            i += 1
+            continue
+        if i + 1 >= len(t) or t[i] not in HEXDIG or t[i + 1] not in HEXDIG:
+            return None
+        out.append(int(t[i:i + 2], 16))
+        i += 2
+    return bytes(out)
+
+
+def readings(form, field):
+    """what an argument may stand for: [bytes] = it has a meaning; [REFUSE, bytes] = base-16 with white space;
+    [REFUSE] = text without a meaning"""
+    if form == 'b':
+        return [unhx(field)]
+    t = arg_text(form, field)
+    b = base16(t)
+    if b is not None:
+        return [b]
+    b = base16_ws(t)
+    return [REFUSE, b] if b is not None else [REFUSE]
+
+
+def cread(t):
+    """RECORDED DEVIATION (findings spaced_digest_text / nonhex_digest_text), used only to decide whether an answer is
+    exactly the recorded misbehaviour and to build test inputs: the integer fastecdsa's C code reads from a digest text —
+    GMP skips white space, any other non-digit gives 0, and the cut to 256 bits counts every CHARACTER as 4 bits"""
+    if any(ch not in HEXDIG and ch not in WS for ch in t):
+        return 0
+    digs = ''.join(ch for ch in t if ch in HEXDIG)
+    v = int(digs, 16) if digs else 0
+    n = 4 * len(t)
+    return v >> (n - 256) if n > 256 else v
+
+
+def dg_class(form, field, k='x'):
+    """the finding class a digest argument falls in, decided from the argument alone (k: '-' = no explicit nonce, only
+    relevant for signing)"""
+    if form == 'b':
+        return None
+    rd = readings(form, field)
+    if rd == [REFUSE]:
+        return 'nonhex_digest_text'
+    if len(rd) == 2:
+        return 'spaced_digest_text'
+    if k == '-' and len(rd[0]) <= 32 and any(ch in 'ABCDEF' for ch in arg_text(form, field)):
+        return 'hex_case_changes_nonce'
+    return None
+
+
+def dgval(b):
+    return bits2int(b), len(b) == 0
+
+
+def dg_cands(form, field, path, deviation=None):
+    """candidate values (integer, is-empty) | REFUSE of a digest argument of the verifier; path = 'verify' (through
+    to_hexstring) or 'set' (txid setter / constructor).  deviation = a recorded class: the value the code is known to
+    read for an argument of that class"""
+    rd = readings(form, field)
+    if form != 'b' and deviation and dg_class(form, field) == deviation:
+        t = arg_text(form, field)
+        if deviation == 'nonhex_digest_text' and path == 'verify':
+            return [dgval(t.encode('latin-1'))]                       # to_hexstring: the UTF-8 bytes of the text
+        return [(cread(t), t == '')]
+    return [x if x is REFUSE else dgval(x) for x in rd]
+
+
+def known_status(cid):
+    """'known' / 'fixed' / None: how a finding is recorded (known_findings.json, VERIF_EXTRA_KNOWN)"""
+    st = None
+    for e in load_known(PROP):
+        if e.get('id') == cid or e.get('class') == cid:
+            st = e.get('status')
+    return st
 
 
 # RFC 6979 / secp256k1 / SHA-256 known answers (key, message, nonce) — the vectors circulated with bitcoinjs-lib,
@@ -474,6 +589,294 @@ def gen_verify_sessions(g, rng, big, valid):
                 'P:b:%s:X%s' % (hx(der(r, s) + b'\x01'), own.hex()), 'P:b:%s:T%s' % (hx(der(r, s) + b'\x01'), own.hex()),
                 'S:%s' % sstep(rng, N, z)]:
         g.add('vseq_no_object', 'vseq f %s Mb:%s:B%s' % (src, hx(z), own.hex()))
+
+
+# ---------------------------------------------------------------- argument forms: what a form-guessing helper confuses
+LO, UP, MIX = b'0123456789abcdef', b'0123456789ABCDEF', b'0123456789abcdefABCDEF'
+HEXLIKE_32 = [b'0123456789abcdef0123456789abcdef', b'A' * 32, b'deadbeef' * 4, b'0' * 31 + b'1', b'aB' * 16, b'f' * 32,
+              b'0123456789ABCDEF' * 2, b'0' * 32]
+HEXLIKE_64 = [b'0123456789abcdef' * 4, b'0123456789ABCDEF' * 4, b'cafeBABE' * 8]
+
+
+def hexlike(rng, n, alpha=MIX):
+    """n bytes that are all ASCII hexadecimal characters"""
+    return bytes(rng.choice(alpha) for _ in range(n))
+
+
+def mixed_case(rng, b):
+    """base-16 text of b with the case chosen per character (at least one letter of each case when there are two letters)"""
+    t = [ch.upper() if rng.random() < 0.5 else ch for ch in b.hex()]
+    li = [i for i, ch in enumerate(t) if ch in 'abcdefABCDEF']
+    if len(li) >= 2:
+        t[li[0]], t[li[-1]] = t[li[0]].upper(), t[li[-1]].lower()
+    return ''.join(t)
+
+
+def tfield(text):
+    """the field of a form-t argument: the characters of the text"""
+    return hx(text.encode('latin-1'))
+
+
+def lift_x(x, odd=0):
+    a = (x * x * x + 7) % P
+    y = pow(a, (P + 1) // 4, P)
+    if y * y % P != a:
+        return None
+    return x, (y if (y & 1) == odd else P - y)
+
+
+def recover_key(r, s, z, odd=0):
+    """the public key under which (r, s) signs z (SEC 1 4.1.6): Q = r^-1 (s R - z G)"""
+    R = lift_x(r, odd)
+    if R is None:
+        return None
+    zG = jmul(z, G)
+    T = affine(jadd(jmul(s, R), (zG[0], (-zG[1]) % P, zG[2])))
+    if T is None:
+        return None
+    return affine(jmul(pow(r, -1, N), T))
+
+
+def hexlike_triple(rng, z_bytes=None, alpha=MIX):
+    """(digest, r, s, Q): a VALID triple whose compact signature r||s — and digest — consist of ASCII hex characters only
+    (or of the characters of another alphabet)"""
+    while True:
+        zb_ = z_bytes if z_bytes is not None else hexlike(rng, 32)
+        r = int.from_bytes(hexlike(rng, 32, alpha), 'big')
+        s = int.from_bytes(hexlike(rng, 32, alpha), 'big')
+        Q = recover_key(r, s, bits2int(zb_), rng.randrange(2))
+        if Q is not None and on_curve(Q) and ec_verify(bits2int(zb_), r, s, Q):
+            return zb_, r, s, Q
+
+
+def hexlike_key_triple(rng):
+    """(digest, r, s, Q): a valid triple under a public key whose x coordinate consists of ASCII hex characters only"""
+    while True:
+        Q = lift_x(int.from_bytes(hexlike(rng, 32), 'big'), rng.randrange(2))
+        if Q is None:
+            continue
+        u1, u2 = rand_key(rng), rand_key(rng)
+        R = affine(jadd(jmul(u1, G), jmul(u2, Q)))
+        if R is None or R[0] % N == 0:
+            continue
+        r = R[0] % N
+        s = r * pow(u2, -1, N) % N
+        z = u1 * s % N
+        if s > HALF:
+            s = N - s
+            z = (N - z) % N               # (r, -s) signs -z
+        if ec_verify(z, r, s, Q):
+            return b32(z), r, s, Q
+
+
+def gen_forms(g, rng, big, valid):
+    """ARGUMENT-FORM AMBIGUITY, every entry point: digests / signatures / keys handed over as bytes that consist of
+    ASCII hex characters, as base-16 text in lower / upper / mixed case, with white space, as text that is not base-16"""
+    def v(kind, dform, dfield, sform, sfield, kform, kfield):
+        g.add(kind, 'verify %s %s %s %s%s%s' % (dfield, sfield, kfield, dform, sform, kform))
+
+    def forms_of(b):
+        """the four spellings of one value: (form letter, field)"""
+        return [('b', hx(b)), ('h', hx(b)), ('U', hx(b)), ('t', tfield(mixed_case(rng, b)))]
+
+    def key_forms(pk):
+        return [('K', hx(pk)), ('B', hx(pk)), ('X', hx(pk)), ('Y', hx(pk)), ('Z', tfield(mixed_case(rng, pk)))]
+
+    spaced_known = known_status('spaced_digest_text') == 'known'
+    nonhex_known = known_status('nonhex_digest_text') == 'known'
+    digests = HEXLIKE_32 + [hexlike(rng, 32) for _ in range(6 if big else 2)] + HEXLIKE_64 + \
+        [b'0123456789abcdef', hexlike(rng, 31), hexlike(rng, 33), hexlike(rng, 64, LO)] + \
+        [rand_digest(rng) for _ in range(8 if big else 3)]            # ordinary digests: their hex text has letters
+    # ---- keys.verify, encoded signature: hex-looking digest BYTES are bytes; the same characters as TEXT are other bytes
+    for i, D in enumerate(digests):
+        d, _, r, s = valid(z=D)
+        pk = ser_pub(pub(d), i % 2 == 0)
+        enc = der(r, s) + bytes([rng.choice([1, 0x41, 0x30, 0x66])])
+        sig_forms = forms_of(enc) + forms_of(b32(r) + b32(s))
+        for j, (df, dfield) in enumerate(forms_of(D)):
+            for m in range(3 if big else 2):
+                sf, sfield = sig_forms[(i + 3 * j + 5 * m) % len(sig_forms)]
+                kf, kfield = key_forms(pk)[(i + j + m) % 5]
+                v('form_hexlike_digest', df, dfield, sf, sfield, kf, kfield)
+        twin = base16(D.decode('latin-1'))
+        if twin is not None:
+            # the signature of the UN-HEXLIFIED digest must be rejected for the bytes D and accepted for the text D
+            _, _, r2, s2 = valid(d=d, z=twin)
+            enc2 = der(r2, s2) + b'\x01'
+            kf, kfield = key_forms(pk)[i % 5]
+            v('form_hexlike_digest_unhex_twin', 'b', hx(D), 'b', hx(enc2), kf, kfield)
+            v('form_hexlike_digest_unhex_twin', 'b', hx(D), 'h', hx(b32(r2) + b32(s2)), 'B', hx(pk))
+            v('form_hexlike_text_is_twin', 't', hx(D), 'b', hx(enc2), kf, kfield)
+            v('form_hexlike_text_is_twin', 't', hx(D), 'b', hx(enc), 'B', hx(pk))
+            for df, dfield in forms_of(twin)[:(4 if big else 2)]:
+                v('form_hexlike_digest_unhex_twin', df, dfield, 'b', hx(enc), 'K', hx(pk))
+    # ---- signatures / keys that are hex-looking themselves
+    triples = [hexlike_triple(rng, z) for z in ([None, HEXLIKE_32[0], HEXLIKE_32[1]] + ([None] * 5 if big else []))]
+    for i, (D, r, s, Q) in enumerate(triples):
+        raw = b32(r) + b32(s)
+        enc = der(r, s) + b'\x41'                                   # 0D.. ..A: hex-looking wherever DER allows it
+        pk = ser_pub(Q, i % 2 == 0)
+        for sig in (raw, enc):
+            for j, (sf, sfield) in enumerate(forms_of(sig)):
+                df, dfield = forms_of(D)[(i + j) % 4]
+                kf, kfield = key_forms(pk)[(i + j) % 5]
+                v('form_hexlike_signature', df, dfield, sf, sfield, kf, kfield)
+                for how in 'bxa':
+                    g.add('form_parse_hexlike', 'parsef %s %s %s' % (how, sf, sfield))
+            # the ASCII bytes of the hex text handed over as a BYTES object are no signature; as text of text neither
+            v('form_ascii_bytes_signature', 'b', hx(D), 'b', hx(sig.hex().encode()), 'B', hx(pk))
+            v('form_ascii_bytes_signature', 'b', hx(D), 'b', hx(sig.hex().upper().encode()), 'B', hx(pk))
+            g.add('form_parse_hexlike', 'parsef a b %s' % hx(sig.hex().encode()))
+            g.add('form_parse_hexlike', 'parsef b b %s' % hx(sig.hex().upper().encode()))
+            g.add('form_parse_hexlike', 'parsef a h %s' % hx(sig.hex().encode()))
+            # white space inside the signature text: refusing it and skipping it are both right
+            sp = ' '.join(sig.hex()[q:q + 2] for q in range(0, 2 * len(sig), 2))
+            g.add('form_parse_spaced', 'parsef a t %s' % tfield(sp))
+            g.add('form_parse_spaced', 'parsef x t %s' % tfield(sig.hex() + '\n'))
+            v('form_spaced_signature', 'b', hx(D), 't', tfield('\t' + sp), 'B', hx(pk))
+        # the same triple, one digit of the signature changed: rejected in every form
+        bad = raw[:40] + bytes([raw[40] ^ 1]) + raw[41:]
+        for sf, sfield in forms_of(bad)[:(4 if big else 2)]:
+            v('form_hexlike_signature_wrong', 'b', hx(D), sf, sfield, 'B', hx(pk))
+        # key bytes that are the ASCII of its hex text are 66 / 130 bytes, not a key; key text with blanks / newline
+        v('form_ascii_bytes_key', 'b', hx(D), 'b', hx(raw), 'B', hx(pk.hex().encode()))
+        v('form_ascii_bytes_key', 'h', hx(D), 'b', hx(enc), 'B', hx(pk.hex().upper().encode()))
+        v('form_spaced_key', 'b', hx(D), 'b', hx(raw), 'Z', tfield(pk.hex() + '\n'))
+        v('form_spaced_key', 'b', hx(D), 'b', hx(raw), 'Z', tfield(' '.join(pk.hex()[q:q + 2] for q in range(0, 2 * len(pk), 2))))
+        v('form_nonhex_key', 'b', hx(D), 'b', hx(raw), 'Z', tfield('0x' + pk.hex()))
+    # a VALID triple whose compact signature consists of ASCII letters that are not hex digits: as a 64-character TEXT
+    # it has no meaning (a helper that falls back to "UTF-8 text" would read the 64 bytes); as bytes it is the signature
+    for i in range(3 if big else 1):
+        D, r, s, Q = hexlike_triple(rng, None, b'ghijklmnopqrstuvwxyzGHIJKLMNOPQRSTUVWXYZ')
+        raw, pk = b32(r) + b32(s), ser_pub(Q)
+        v('form_nonhex_signature_text', 'b', hx(D), 't', hx(raw), 'B', hx(pk))
+        v('form_nonhex_signature_text', 'h', hx(D), 'b', hx(raw), 'X', hx(pk))
+        for how in 'xab':
+            g.add('form_parse_nonhex_text', 'parsef %s t %s' % (how, hx(raw)))
+        g.add('vseq_form_nonhex_signature_text', 'vseq f P:T:%s:- Mb:%s:B%s' % (hx(raw), hx(D), pk.hex()))
+        g.add('vseq_form_nonhex_signature_text', 'vseq f N:t:%s Fb:%s:B%s' % (hx(raw), hx(D), pk.hex()))
+        # ... and the same for a key: 66 characters that are not base-16
+        v('form_nonhex_key', 'b', hx(D), 'b', hx(raw), 'Z', tfield('zz' * 33))
+    for i in range(6 if big else 2):
+        D, r, s, Q = hexlike_key_triple(rng)
+        for comp in (True, False):
+            pk = ser_pub(Q, comp)
+            for kf, kfield in key_forms(pk):
+                v('form_hexlike_key', rng.choice('bhU'), hx(D), rng.choice('bh'), hx(der(r, s) + b'\x01'), kf, kfield)
+        Qn = (Q[0], P - Q[1])
+        v('form_hexlike_key_negated', 'b', hx(D), 'b', hx(der(r, s) + b'\x01'), 'B', hx(ser_pub(Qn)))
+        v('form_hexlike_key_negated', 'b', hx(D), 'b', hx(der(r, s) + b'\x01'), 'Y', hx(ser_pub(Qn, False)))
+    # ---- white space in / no base-16 reading of the DIGEST text.  Valid triples: refusing (ERR / False) is right
+    d, z, r, s = valid()
+    pk, enc = ser_pub(pub(d)), der(r, s) + b'\x01'
+    hz = z.hex()
+    ws_texts = [' '.join(hz[q:q + 2] for q in range(0, 64, 2)), hz + '\n', ' ' + hz, '\t' + hz.upper() + '\r\n', hz[:32] + ' ' + hz[32:],
+                mixed_case(rng, z) + ' ']
+    bad_texts = ['0x' + hz, hz[:-1], hz + '0', 'hello', 'zz' * 32, 'g' + hz[1:], hz[:20] + '-' * 0 + 'x' + hz[21:], hz[:63] + ' ' + hz[63]]
+    for tx in ws_texts + bad_texts:
+        v('form_ws_digest' if tx in ws_texts else 'form_nonhex_digest', 't', tfield(tx), 'b', hx(enc), 'B', hx(pk))
+    # (text without a meaning goes through the setters only when finding nonhex_digest_text is recorded: an odd number of
+    # digits assigned to .txid is read by the C code as a number)
+    g.add('vseq_form_ws_digest', 'vseq f P:b:%s:- %s' % (hx(enc), ' '.join(
+        '%st:%s:B%s' % (rng.choice('FMA' if tx in ws_texts or nonhex_known else 'FM'), tfield(tx), pk.hex())
+        for tx in ws_texts + bad_texts[:4])))
+    g.add('vseq_form_ws_digest', 'vseq f V:%d:%d:t%s:B%s Mb:*:* Mb:%s:* Mt:%s:* Mh:%s:*'
+          % (r, s, tfield(ws_texts[0]), pk.hex(), hx(z), tfield(ws_texts[1]), hx(z)))
+    if spaced_known:
+        # a signature made for the integer the C code reads from the text is ACCEPTED (finding spaced_digest_text)
+        for tx in ws_texts[:4] + ['ab cd', ' ']:
+            _, _, r2, s2 = valid(d=d, z=b32(cread(tx)))
+            v('form_ws_digest_creading', 't', tfield(tx), 'b', hx(der(r2, s2) + b'\x01'), 'B', hx(pk))
+        _, _, r2, s2 = valid(d=d, z=b32(cread(ws_texts[1])))
+        g.add('vseq_form_ws_digest_creading', 'vseq f V:%d:%d:t%s:B%s Mb:*:* At:%s:* Mt:%s:B%s Mb:%s:*'
+              % (r2, s2, tfield(ws_texts[1]), pk.hex(), tfield(ws_texts[1]), tfield(ws_texts[1]), pk.hex(), hx(z)))
+        for j, tx in enumerate(ws_texts + ['ab cd', 'AB\tCD\n', ' ']):
+            g.add('form_ws_digest_sign', 'sign %d %s %s 1 t%s' % (d, tfield(tx), '-' if j % 2 == 0 else str(rand_key(rng)), 'KHS'[j % 3]))
+    if nonhex_known:
+        # text without any base-16 reading: verify judges its UTF-8 bytes, sign signs the integer 0
+        for tx in ['hello', 'zz' * 32, hz[:-1], '0x' + hz[:60]]:
+            _, _, r2, s2 = valid(d=d, z=tx.encode())
+            v('form_nonhex_digest_utf8', 't', tfield(tx), 'b', hx(der(r2, s2) + b'\x01'), 'B', hx(pk))
+        _, _, r2, s2 = valid(d=d, z=b'hello')
+        g.add('vseq_form_nonhex_digest', 'vseq f P:b:%s:- Mt:%s:B%s At:%s:* Mb:%s:*'
+              % (hx(der(r2, s2) + b'\x01'), tfield('hello'), pk.hex(), tfield('hello'), hx(b'hello')))
+        for j, tx in enumerate(['hello', 'world', 'zz' * 32, hz[:-1], 'g' * 64]):
+            g.add('form_nonhex_digest_sign', 'sign %d %s %s 1 t%s' % (d, tfield(tx), '-' if j % 2 == 0 else str(rand_key(rng)), 'KHS'[j % 3]))
+    g.add('form_nonhex_digest_sign_long', 'sign %d %s - 1 tK' % (d, tfield('g' * 70)))
+    # ---- signing: hex-looking digests and private keys in every form
+    kforms = 'KHSuBky'
+    sign_digests = HEXLIKE_32[:(8 if big else 5)] + [hexlike(rng, 32)] + HEXLIKE_64[:(3 if big else 2)] + [b'0123456789abcdef', hexlike(rng, 40)] + \
+        [rand_digest(rng) for _ in range(4 if big else 2)]
+    for i, D in enumerate(sign_digests):
+        dd = int.from_bytes(hexlike(rng, 32), 'big') if i % 2 == 0 else rand_key(rng)
+        for j, (df, dfield) in enumerate(forms_of(D)):
+            # RFC 6979 for bytes / lower-case text (and for the other cases on a few: finding hex_case_changes_nonce)
+            auto = df in 'bh' and (big or (i + j) % 2 == 0) or (df in 'Ut' and i % 5 == 0)
+            g.add('form_hexlike_sign', 'sign %d %s %s %d %s%s' % (dd, dfield, '-' if auto else str(rand_key(rng)),
+                                                              rng.choice([1, 0x41]), df, kforms[(i + 2 * j) % len(kforms)]))
+        twin = base16(D.decode('latin-1'))
+        if twin is not None:
+            # one process: the bytes D, the bytes they would un-hexlify to, the text D (= those bytes), D again
+            k_exp = rand_key(rng)
+            steps = ['%d:%s:%s:1:b%s' % (dd, hx(D), str(k_exp), kforms[i % 7]), '%d:%s:%s:1:b%s' % (dd, hx(twin), str(k_exp), kforms[(i + 1) % 7]),
+                     '%d:%s:%s:1:t%s' % (dd, hx(D), str(k_exp), kforms[(i + 2) % 7]), '%d:%s:%s:1:h%s' % (dd, hx(D), str(k_exp), kforms[(i + 3) % 7]),
+                     '%d:%s:%s:1:U%s' % (dd, hx(twin), str(k_exp), kforms[(i + 4) % 7]), '%d:%s:%s:1:b%s' % (dd, hx(D), str(k_exp), kforms[(i + 5) % 7])]
+            if i % 3 == 0:
+                steps += ['%d:%s:-:1:bK' % (dd, hx(D)), '%d:%s:-:1:bH' % (dd, hx(twin)), '%d:%s:-:1:hB' % (dd, hx(D))]
+            g.add('signseq_forms', 'signseq %s %s' % (rng.choice('rf'), ' '.join(steps)))
+    for i in range(4 if big else 2):
+        g.add('sign_random_nonce_forms', 'signrand %d %s 1 %s%s' % (int.from_bytes(hexlike(rng, 32), 'big'), hx(rng.choice(HEXLIKE_32)),
+                                                                   'bh'[i % 2], kforms[i % 7]))
+    # ---- ONE Signature object: every source x every way of handing a digest / key to it
+    for i, D in enumerate(HEXLIKE_32[:(8 if big else 4)] + [HEXLIKE_64[i_ % 3] for i_ in range(2 if big else 1)] +
+                          [rand_digest(rng) for _ in range(3 if big else 1)]):
+        d, _, r, s = valid(z=D)
+        Q = pub(d)
+        pk, pkn = ser_pub(Q, i % 2 == 0), ser_pub((Q[0], P - Q[1]), i % 2 == 1)
+        twin = base16(D.decode('latin-1'))
+        k_exp = rand_key(rng)
+
+        def kt(p=pk):
+            kf, kfield = key_forms(p)[rng.randrange(5)]
+            return kf + kfield
+
+        def st(df, dfield, key='own', entry=None):
+            return '%s%s:%s:%s' % (entry or rng.choice('FMA'), df, dfield, '*' if key is None else kt(pk if key == 'own' else pkn))
+
+        fo = forms_of(D)
+        steps = [st(*fo[0], entry='M'), st(*fo[0], entry='F'), st(*fo[0], entry='A'), st(*fo[1]), st(*fo[2]), st(*fo[3])] + \
+                ([st('b', hx(twin)), st('t', hx(D))] if twin is not None else [st('b', hx(D[::-1]))]) + \
+                [st(*fo[0], key='neg'), st(*fo[rng.randrange(4)]),
+                 'Ab:%s:*' % hx(D), 'Mb:*:*', 'At:%s:*' % (hx(D) if twin is not None else fo[3][1]), 'Mb:*:*',
+                 st(*fo[2], entry='A', key=None), 'M%s:%s:*' % fo[1]]
+        enc = der(r, s) + bytes([rng.choice([1, 0x41])])
+        raw = b32(r) + b32(s)
+        sources = ['S:%d:%s:%s:1:b%s' % (d, hx(D), '-' if i % 2 else str(k_exp), 'KHSB'[i % 4]),
+                   'C:%d:%s:%s:65:%s%s' % (d, fo[1 + i % 3][1], str(k_exp), fo[1 + i % 3][0], 'KHuy'[i % 4]),
+                   'P:%s:%s:-' % ('baxAuw'[i % 6], hx(enc)), 'P:%s:%s:%s' % ('xawbuA'[i % 6], hx(raw), kt()),
+                   'P:t:%s:%s' % (tfield(mixed_case(rng, enc)), kt()), 'P:T:%s:-' % tfield(mixed_case(rng, raw)),
+                   'V:%d:%d:%s:%s' % (r, s, hx(D), kt()), 'V:%d:%d:h%s:-' % (r, s, hx(D)), 'V:%d:%d:U%s:%s' % (r, s, hx(D), kt(pkn)),
+                   'V:%d:%d:t%s:-' % (r, s, fo[3][1]), 'V:%d:%d:t%s:%s' % (r, s, hx(D) if twin is not None else fo[3][1], kt()),
+                   'N:%s:%s' % ('bhUt'[i % 4], forms_of(enc)[i % 4][1])]
+        for j, src in enumerate(sources):
+            if not big and (i + j) % 3:
+                continue
+            sts = list(steps)
+            if src[0] in 'SC':
+                sts = ['Mb:*:*', 'Mb:*:%s' % kt(pkn), 'Ab:*:%s' % kt()] + sts      # the digest sign() left in the object
+            if src[0] == 'V':
+                sts = ['Mb:*:%s' % kt(), 'Ab:*:%s' % kt(pkn), 'Mb:*:%s' % kt()] + sts      # the digest given to the constructor
+            if src[0] == 'N':
+                sts = ['F' + x[1:] for x in sts if ':*' not in x]
+            g.add('vseq_forms', 'vseq %s %s %s' % (rng.choice('rf'), src, ' '.join(sts)))
+    # a hex-looking compact signature as the object's source, digests hex-looking too
+    for i, (D, r, s, Q) in enumerate(triples[:(8 if big else 2)]):
+        pk = ser_pub(Q)
+        raw = b32(r) + b32(s)
+        sts = ' '.join('%s%s:%s:%s%s' % (rng.choice('FMA'), df, dfield, kf, kfield) for (df, dfield), (kf, kfield) in zip(forms_of(D) * 2, key_forms(pk) * 2))
+        for src in ['P:b:%s:-' % hx(raw), 'P:A:%s:B%s' % (hx(raw), pk.hex()), 'P:t:%s:-' % tfield(mixed_case(rng, raw)),
+                    'V:%d:%d:%s:Y%s' % (r, s, hx(D), pk.hex())][:(4 if big else 2 + i)]:
+            g.add('vseq_forms_hexlike_signature', 'vseq %s %s %s' % (rng.choice('rf'), src, sts))
 
 
 class Gen:
@@ -756,6 +1159,9 @@ def gen_cases(rng, tier):
     gen_sign_sessions(g, rng, big)
     gen_verify_sessions(g, rng, big, valid)
 
+    # ---------------- argument forms: bytes / text, hex-looking bytes, case, white space, text that is not base-16
+    gen_forms(g, rng, big, valid)
+
     # ---------------- RFC 6979 generator alone, DER encoder alone
     for _ in range(400 if big else 30):
         g.add('nonce', 'nonce %d %s' % (rng.choice(EDGE_KEYS + [rand_key(rng)]), rand_digest(rng).hex()))
@@ -790,16 +1196,24 @@ def is_trivial(c, out):
 
 
 # ---------------------------------------------------------------- property-level verdict on the implementation's answer
-def check_sign(d, msg, k, ht, out):
-    """verdict on ONE answer of the signer; returns (message | None, (r, digest) | None)"""
+def dsha(m):
+    return hashlib.sha256(hashlib.sha256(m).digest()).digest()
+
+
+def check_sign(d, msg, k, ht, out, text=None, z=None, force_hash=False):
+    """verdict on ONE answer of the signer; returns (message | None, (r, digest) | None).
+    text / z / force_hash describe a RECORDED deviation (used by the class predicates only): the digest text whose
+    SHA-256 seeds RFC 6979 instead of the lower-case hex of the digest, the integer that is signed instead of the
+    digest's, hashing a digest of at most 32 bytes as if it were a message"""
     if not (1 <= d < N):
         return (None if out == 'ERR' else 'signature made with a private key outside [1, n-1]'), None
     if not (0 <= ht <= 255):
         return (None if out == 'ERR' else 'hash type %d outside a byte accepted' % ht), None
-    dg = hashlib.sha256(hashlib.sha256(msg).digest()).digest() if len(msg) > 32 else msg
-    z = bits2int(dg)
+    dg = dsha(msg) if len(msg) > 32 or force_hash else msg
+    if z is None:
+        z = bits2int(dg)
     if not k:
-        k = rfc6979(d, hashlib.sha256(dg.hex().encode()).digest())
+        k = rfc6979(d, hashlib.sha256((dg.hex() if text is None else text).encode('latin-1')).digest())
     elif k % N == 0:
         return (None if out == 'ERR' else 'nonce = 0 mod n produced %s' % out[:60]), None
     exp = ec_sign(d, z, k)
@@ -823,7 +1237,30 @@ def check_sign(d, msg, k, ht, out):
     return None, (r, dg)
 
 
-def signseq_failures(c, out):
+def check_sign_arg(d, form, field, k, ht, out, deviation=None):
+    """the same for a digest argument as given (form letter + field): the MEANING of the argument is signed"""
+    rd = readings(form, field)
+    if deviation is not None and dg_class(form, field, '-' if k is None else 'x') == deviation:
+        t = arg_text(form, field)
+        if deviation == 'hex_case_changes_nonce':
+            return check_sign(d, rd[0], k, ht, out, text=t)
+        if deviation == 'spaced_digest_text':
+            if len(t) > 64:
+                return check_sign(d, rd[1], k, ht, out, force_hash=True)        # more than 64 CHARACTERS: hashed
+            return check_sign(d, b'', k, ht, out, text=t, z=cread(t))
+        if deviation == 'nonhex_digest_text' and len(t) <= 64:
+            return check_sign(d, b'', k, ht, out, text=t, z=cread(t))        # 0, or the number an odd count of digits spells
+    if rd == [REFUSE]:
+        return (None if out == 'ERR' else 'a digest text that is not base-16 was signed: %s' % out[:60]), None
+    if len(rd) == 2:
+        if out == 'ERR':
+            return None, None
+        m, info = check_sign(d, rd[1], k, ht, out)
+        return ('digest text with white space: ' + m if m else None), info
+    return check_sign(d, rd[0], k, ht, out)
+
+
+def signseq_failures(c, out, deviation=None):
     """[(step index, message)] for a signing session"""
     steps = c.req.split(' ')[2:]
     outs = out.split(';')
@@ -832,12 +1269,12 @@ def signseq_failures(c, out):
     fails, seen_r, seen_req = [], {}, {}
     for i, (st, o) in enumerate(zip(steps, outs)):
         d, msg, k, ht, form = st.split(':')
-        d, msg, k, ht = int(d), unhx(msg), (None if k == '-' else int(k)), int(ht)
-        m, info = check_sign(d, msg, k, ht, o)
+        d, k, ht = int(d), (None if k == '-' else int(k)), int(ht)
+        m, info = check_sign_arg(d, form[0], msg, k, ht, o, deviation)
         if m:
             fails.append((i, 'step %d (key %x): %s' % (i, d, m)))
-        # deterministic: the same (key, message, nonce, hash type) asked again in the same process
-        rk = (d, msg, k, ht)
+        # deterministic: the same (key, message AS GIVEN, nonce, hash type) asked again in the same process
+        rk = (d, form[0], msg, k, ht)
         if rk in seen_req and seen_req[rk][1] != o:
             fails.append((i, 'step %d repeats step %d and gets a different signature' % (i, seen_req[rk][0])))
         seen_req.setdefault(rk, (i, o))
@@ -853,40 +1290,73 @@ def signseq_failures(c, out):
     return fails
 
 
-def _key_of(tok):
-    """(curve point | None, form) of a key argument as standard ECDSA reads it"""
+def key_cands(tok):
+    """(candidate curve points | None of a key argument as standard ECDSA reads it, form letter)"""
     f, body = tok[0], tok[1:]
     if f in 'VW':
         d = int(body)
-        return (pub(d) if 1 <= d < N else None), f
-    return sec_point(bytes.fromhex(body)), f
+        return [pub(d) if 1 <= d < N else None], f
+    if f == 'Z':
+        return [None if x is REFUSE else sec_point(x) for x in readings('t', body)], f
+    return [sec_point(bytes.fromhex(body))], f
 
 
-AMBIG = object()
+def _key_of(tok):
+    c, f = key_cands(tok)
+    return c[-1], f
 
 
-def vseq_failures(c, out):
+SIG_FORM_OF_HOW = {'b': 'b', 'a': 'b', 'x': 'h', 'A': 'h', 'u': 'U', 'w': 'U', 'T': 't', 't': 't'}
+AMBIG = 'AMBIG'
+
+
+def rs_cands(form, field):
+    """candidate (r, s) | None (no object / refused) of a signature argument"""
+    out = []
+    for x in readings(form, field):
+        if x is REFUSE:
+            out.append(None)
+            continue
+        ps = spec_parse(x)
+        out.append(ps[:2] if ps is not None and 1 <= ps[0] < N and 1 <= ps[1] < N else None)
+    return out
+
+
+def vseq_failures(c, out, deviation=None):
     """[(step index, message, key form)] for a verification session; the expected verdicts are computed here from
-    the request alone: standard ECDSA on the value the object must hold and the arguments in force (the ones given
-    in the call; for an omitted argument the one given most recently, unless a refused call makes that ambiguous)"""
+    the request alone: standard ECDSA on the value the object must hold and the MEANINGS of the arguments in force
+    (the ones given in the call; for an omitted argument the one given most recently, unless a refused call or an
+    argument with two readings makes that ambiguous).  deviation = a recorded digest class: digests of that class
+    are taken as the code is known to read them (used by the class predicates only)"""
     t = c.req.split(' ')
     src, steps = t[2].split(':'), t[3:]
     kind = src[0]
     rs, dg_st, key_st, tolerated = None, None, None, False
+    rs_alt = False              # the source signature has two readings (text with white space): ERR is fine too
     if kind in 'SC':
-        d, msg, k, ht = int(src[1]), unhx(src[2]), (None if src[3] == '-' else int(src[3])), int(src[4])
+        d, k, ht, form = int(src[1]), (None if src[3] == '-' else int(src[3])), int(src[4]), src[5]
+        rd = readings(form[0], src[2])
+        if len(rd) != 1 or rd[0] is REFUSE:
+            return []           # signing a digest text without a unique meaning: judged by the sign requests
+        msg = rd[0]
+        if k is None and form[0] != 'b' and arg_text(form[0], src[2]) != msg.hex() and len(msg) <= 32:
+            return []           # nonce from the text (hex_case_changes_nonce): the object's (r, s) is judged by the sign requests
         if 1 <= d < N and 0 <= ht <= 255:
-            dgb = hashlib.sha256(hashlib.sha256(msg).digest()).digest() if len(msg) > 32 else msg
+            dgb = dsha(msg) if len(msg) > 32 else msg
             kk = k if k else rfc6979(d, hashlib.sha256(dgb.hex().encode()).digest())
             e = ec_sign(d, bits2int(dgb), kk) if kk % N else None
             if e:
-                rs, dg_st, key_st = (e[0], min(e[1], N - e[1])), dgb, pub(d)
+                rs, dg_st, key_st = (e[0], min(e[1], N - e[1])), dgval(dgb), pub(d)
     elif kind in 'PN':
-        ps = spec_parse(unhx(src[2]))
-        if ps is not None and 1 <= ps[0] < N and 1 <= ps[1] < N:
-            rs = ps[:2]
+        sform = SIG_FORM_OF_HOW[src[1]] if kind == 'P' else src[1]
+        rc = rs_cands(sform, src[2])
+        rs = rc[-1]
+        rs_alt = len(rc) == 2
         if kind == 'P' and src[3] != '-':
-            key_st, f = _key_of(src[3])
+            kc, f = key_cands(src[3])
+            key_st = kc[-1]
+            if len(kc) == 2:
+                rs_alt = True
             if key_st is None:
                 rs = None
             elif f == 'T':
@@ -895,75 +1365,97 @@ def vseq_failures(c, out):
         r, s_ = int(src[1]), int(src[2])
         if 1 <= r < N and 1 <= s_ < N:
             rs = (r, s_)
-        dg_st = None if src[3] == '*' else unhx(src[3])
+        if src[3] != '*':
+            dform, dfield = (src[3][0], src[3][1:]) if src[3][0] in 'hUt' else ('b', src[3])
+            dc = dg_cands(dform, dfield, 'set', deviation)
+            dg_st = dc[0] if len(dc) == 1 and dc[0] is not REFUSE else AMBIG
         if src[4] != '-':
-            key_st, f = _key_of(src[4])
+            kc, f = key_cands(src[4])
+            key_st = kc[-1]
+            if len(kc) == 2:
+                rs_alt = True
             if key_st is None:
                 rs = None
             elif f == 'T':
                 tolerated = True
     if out == 'ERR':
-        if rs is None:
+        if rs is None or rs_alt:
             return []
         if tolerated:
             return []               # the key handed to the constructor was a tuple: not a documented key type
         return [(-1, 'a well-formed signature could not be turned into a Signature object', '')]
+    if kind != 'N' and rs is None and not rs_alt:
+        pass                        # an object exists although the source is malformed: every verdict below expects ERR
     outs = out.split(',')
     if len(outs) != len(steps):
         return [(-1, 'session of %d steps answered with %d verdicts' % (len(steps), len(outs)), '')]
     fails = []
     for i, (st, o) in enumerate(zip(steps, outs)):
         head, dg, ka = st.split(':')[:3]
-        rs_i = rs
-        if kind == 'N' and st.count(':') == 3:            # the step names its own signature
-            ps = spec_parse(unhx(st.split(':')[3]))
-            rs_i = ps[:2] if ps is not None and 1 <= ps[0] < N and 1 <= ps[1] < N else None
+        rs_c = [rs]
+        if kind == 'N':
+            rs_c = rs_cands(src[1], st.split(':')[3] if st.count(':') == 3 else src[2])
         form = ka[0] if ka != '*' else ''
         if o not in ('1', '0', 'ERR'):
             fails.append((i, 'step %d: unexpected answer %r' % (i, o[:60]), form))
             continue
-        dg_eff = dg_st if dg == '*' else unhx(dg)
-        if ka == '*':
-            key_eff = key_st
-        else:
-            key_eff, _ = _key_of(ka)
+        dg_c = [dg_st] if dg == '*' else dg_cands(head[1], dg, 'set' if head[0] == 'A' else 'verify', deviation)
+        key_c = [key_st] if ka == '*' else key_cands(ka)[0]
+        key_eff = key_c[-1]
         # what the call leaves behind
         refused_by_caller = ka != '*' and form in 'KHVWT' and key_eff is None
         if not refused_by_caller:
+            dg_new = dg_c[0] if len(dg_c) == 1 and dg_c[0] is not REFUSE else AMBIG
             if ka != '*' and (key_eff is None or form == 'T'):
                 # the library call raises / may raise half-way: what it remembers afterwards is not specified
-                if dg != '*' and dg_st is not AMBIG and unhx(dg) != dg_st:
+                if dg != '*' and dg_st is not AMBIG and dg_new != dg_st:
                     dg_st = AMBIG
                 if form == 'T' and key_eff is not None and key_eff != key_st:
                     key_st = AMBIG
             else:
                 if dg != '*':
-                    dg_st = unhx(dg)
+                    dg_st = dg_new
                 if ka != '*':
-                    key_st = key_eff
-        if dg_eff is AMBIG or key_eff is AMBIG:
+                    key_st = key_eff if len(key_c) == 1 else AMBIG
+        if AMBIG in dg_c or AMBIG in key_c:
             continue
-        if rs_i is None:
-            exp = 'ERR'
-        elif dg_eff is None or len(dg_eff) == 0 or key_eff is None:
-            exp = 'ERR'
-        else:
-            exp = '1' if ec_verify(bits2int(dg_eff), rs_i[0], rs_i[1], key_eff) else '0'
+        exps = set()
+        for rs_i in rs_c:
+            for dv in dg_c:
+                for kv in key_c:
+                    if rs_i is None or dv is None or dv is REFUSE or dv[1] or kv is None:
+                        exps.add('ERR')
+                    else:
+                        exps.add('1' if ec_verify(dv[0], rs_i[0], rs_i[1], kv) else '0')
         if form == 'T' and o == 'ERR':
             continue                                  # a tuple is not a documented key type: refusing it is fine
-        if (o == '1') != (exp == '1'):
-            fails.append((i, 'step %d (%s): verify returns %s, standard ECDSA on the arguments in force gives %s'
-                          % (i, st[:40], o, exp), form))
+        if (o == '1') not in {e == '1' for e in exps}:
+            fails.append((i, 'step %d (%s): verify returns %s, standard ECDSA on the meaning of the arguments in force gives %s'
+                          % (i, st[:40], o, '/'.join(sorted(exps))), form))
     return fails
 
 
-def prop_check(c, out):
+def verify_req_expect(t, deviation=None):
+    """the verdicts standard ECDSA allows for a `verify` request (a set: one element unless an argument has two readings)"""
+    form = t[4]
+    dg_c = dg_cands(form[0], t[1], 'verify', deviation)
+    sg_c = readings(form[1], t[2])
+    key_c = readings('t', t[3]) if form[2] == 'Z' else [unhx(t[3])]
+    exps = set()
+    for dv in dg_c:
+        for sg in sg_c:
+            for kv in key_c:
+                exps.add('ERR' if REFUSE in (dv, sg, kv) else spec_verify_z(dv, sg, kv))
+    return exps
+
+
+def prop_check(c, out, deviation=None):
     t = c.req.split(' ')
     if out.startswith('CRASH') or out in ('BADREQ', 'NONDET', 'BADKEY') or out.startswith('ODD'):
         return 'unexpected answer %r' % out[:120]
     if t[0] == 'sign':
-        d, msg, k, ht = int(t[1]), unhx(t[2]), (None if t[3] == '-' else int(t[3])), int(t[4])
-        return check_sign(d, msg, k, ht, out)[0]
+        d, k, ht = int(t[1]), (None if t[3] == '-' else int(t[3])), int(t[4])
+        return check_sign_arg(d, t[5][0], t[2], k, ht, out, deviation)[0]
     if t[0] == 'signrand':
         d, msg, ht = int(t[1]), unhx(t[2]), int(t[3])
         if out == 'ERR':
@@ -984,36 +1476,53 @@ def prop_check(c, out):
             return 'use_rfc6979=False: random nonce of only %d bits' % min(int(parts[0][3]), int(parts[1][3])).bit_length()
         return None
     if t[0] == 'signseq':
-        f = signseq_failures(c, out)
+        f = signseq_failures(c, out, deviation)
         return f[0][1] if f else None
     if t[0] == 'vseq':
-        f = vseq_failures(c, out)
+        f = vseq_failures(c, out, deviation)
         return f[0][1] if f else None
     if t[0] == 'verify':
-        dg, sig, pk = unhx(t[1]), unhx(t[2]), unhx(t[3])
         if len(t) > 4 and t[4][2:] == 'L':
             return None                          # Key(.., strict=False) is the documented tolerant mode
-        exp = spec_verify(dg, sig, pk)
+        exps = verify_req_expect(t, deviation)
         if out not in ('1', '0', 'ERR'):
             return 'unexpected answer %r' % out[:80]
-        if (out == '1') != (exp == '1'):
-            return 'verify returns %s, standard ECDSA over strictly decoded input gives %s' % (out, exp)
+        if (out == '1') not in {e == '1' for e in exps}:
+            return 'verify returns %s, standard ECDSA over the meaning of the arguments (strictly decoded) gives %s' % (
+                out, '/'.join(sorted(exps)))
         return None
-    if t[0] == 'parse':
-        sig = unhx(t[1])
-        ps = spec_parse(sig)
-        if ps is not None and not (1 <= ps[0] < N and 1 <= ps[1] < N):
-            ps = None
-        if ps is None:
-            return None if out == 'ERR' else 'malformed / out-of-range signature accepted by parse_bytes: %s' % out[:80]
-        if out == 'ERR':
-            return 'well-formed signature rejected by parse_bytes'
-        f = out.split(' ')
-        if (int(f[0]), int(f[1]), int(f[2])) != ps:
-            return 'parse_bytes reads (%s, %s, %s), strict reading is %r' % (f[0][:20], f[1][:20], f[2], ps)
-        if unhx(f[3]) != der(ps[0], ps[1]) + bytes([ps[2]]):
-            return 'as_der_encoded() of the parsed signature is not its strict DER form'
-        return None
+    if t[0] in ('parse', 'parsef'):
+        if t[0] == 'parse':
+            cands = [unhx(t[1])]
+        else:
+            how, form = t[1], t[2]
+            cands = readings(form, t[3])
+            if (how == 'b') != (form == 'b') and how != 'a':
+                cands = [REFUSE] + [x for x in cands if x is not REFUSE]     # parse_bytes(str) / parse_hex(bytes): refusing is right
+        oks = []
+        for sig in cands:
+            ps = None if sig is REFUSE else spec_parse(sig)
+            if ps is not None and not (1 <= ps[0] < N and 1 <= ps[1] < N):
+                ps = None
+            oks.append(ps)
+        msgs = []
+        for ps in oks:
+            if ps is None:
+                msgs.append(None if out == 'ERR' else 'malformed / out-of-range / meaningless signature argument accepted: %s' % out[:80])
+                continue
+            if out == 'ERR':
+                msgs.append('well-formed signature rejected by %s' % t[0])
+                continue
+            f = out.split(' ')
+            if len(f) != 4:
+                msgs.append('parsed signature object inconsistent: %s' % out[:160])
+            elif (int(f[0]), int(f[1]), int(f[2])) != ps:
+                msgs.append('parse reads (%s, %s, %s), strict reading is %r' % (f[0][:20], f[1][:20], f[2], ps))
+            elif unhx(f[3]) != der(ps[0], ps[1]) + bytes([ps[2]]):
+                msgs.append('as_der_encoded() of the parsed signature is not its strict DER form')
+            else:
+                msgs.append(None)
+        return None if None in msgs else msgs[-1]
     if t[0] == 'nonce':
         exp = rfc6979(int(t[1]), unhx(t[2]))
         return None if out == str(exp) else 'RFC 6979 nonce %s, independent computation %d' % (out[:80], exp)
@@ -1026,18 +1535,51 @@ def prop_check(c, out):
     return None
 
 
-def _upper_hex(c, io, mo):
+# ---------------------------------------------------------------- recorded finding classes
+def digest_args(c):
+    """[(form, field, k)] of every digest argument of a request (k = '-' when a signature is made without explicit nonce)"""
     t = c.req.split(' ')
-    return t[0] == 'sign' and t[5][0] == 'U' and t[3] == '-' and len(unhx(t[2])) <= 32 and \
-        any(ch in 'abcdef' for ch in t[2])
+    if t[0] == 'sign':
+        return [(t[5][0], t[2], t[3])]
+    if t[0] == 'signseq':
+        return [(x[4][0], x[1], x[2]) for x in (st.split(':') for st in t[2:])]
+    if t[0] == 'verify':
+        return [(t[4][0], t[1], 'x')]
+    if t[0] == 'vseq':
+        out = []
+        src = t[2].split(':')
+        if src[0] in 'SC':
+            out.append((src[5][0], src[2], src[3]))
+        if src[0] == 'V' and src[3] != '*':
+            out.append((src[3][0], src[3][1:], 'x') if src[3][0] in 'hUt' else ('b', src[3], 'x'))
+        for st in t[3:]:
+            head, dg = st.split(':')[:2]
+            if dg != '*':
+                out.append((head[1], dg, 'x'))
+        return out
+    return []
+
+
+def _digest_class(cid):
+    """a request is in the class when one of its digest arguments is (decided from the request alone), and the class
+    excuses a failure only when the answer is EXACTLY the recorded misbehaviour for those arguments and right everywhere else"""
+    def pred(c, io, mo):
+        if not any(dg_class(f, x, k) == cid for f, x, k in digest_args(c)):
+            return False
+        return prop_check(c, io, deviation=cid) is None
+    return pred
 
 
 def _sig_of(c):
     t = c.req.split(' ')
     if t[0] == 'verify':
-        return unhx(t[2])
+        rd = readings(t[4][1], t[2])
+        return None if rd[-1] is REFUSE else rd[-1]
     if t[0] == 'parse':
         return unhx(t[1])
+    if t[0] == 'parsef':
+        rd = readings(t[2], t[3])
+        return None if rd[-1] is REFUSE else rd[-1]
     return None
 
 
@@ -1053,8 +1595,10 @@ def _lax_der(c, io, mo):
 
 KNOWN_CLASSES = {
     'der64_read_as_raw': _der64,
-    'hex_case_changes_nonce': _upper_hex,
+    'hex_case_changes_nonce': _digest_class('hex_case_changes_nonce'),
     'lax_der_accepted': _lax_der,
+    'spaced_digest_text': _digest_class('spaced_digest_text'),
+    'nonhex_digest_text': _digest_class('nonhex_digest_text'),
 }
 
 
